@@ -178,7 +178,9 @@ static const wpk WL3[] = { { 1, 40, 100, 0, A_SRV }, { 1, 300, 101, 0, A_SRV }, 
 	{ 1, 500, 4000, 0, A_SRV }, { 0, 500, 4001, 0, A_CLA } };
 /* C11: large packets both ways at the same time (full upstream chunk answered by a full downstream fragment), then small, then large again */
 static const wpk WL5[] = { { 1, 1100, 100, 0, A_SRV }, { 0, 1100, 100, 0, A_CLA }, { 1, 60, 4000, 0, A_SRV }, { 0, 60, 4100, 0, A_CLA }, { 1, 1100, 7000, 0, A_SRV }, { 0, 1100, 7001, 0, A_CLA } };
-static const struct { const wpk *p; int n; } WLS[6] = { { WL0, 10 }, { WL1, 12 }, { WL2, 6 }, { WL3, 8 }, { WL0, 0 }, { WL5, 6 } };
+/* C16: multi-fragment packets both ways so that a double append or a double ack would land in mid-packet */
+static const wpk WL6[] = { { 1, 700, 100, 0, A_SRV }, { 0, 700, 150, 0, A_CLA }, { 1, 300, 1200, 0, A_SRV }, { 0, 300, 1250, 0, A_CLA }, { 1, 200, 5000, 0, A_SRV }, { 0, 200, 5050, 0, A_CLA } };
+static const struct { const wpk *p; int n; } WLS[7] = { { WL0, 10 }, { WL1, 12 }, { WL2, 6 }, { WL3, 8 }, { WL0, 0 }, { WL5, 6 }, { WL6, 6 } };
 
 static int up_chunk_cap, down_frag_cap;
 static int WL_MUST[NS_MAXPK];   /* bytes per upstream query / downstream fragment in this cell */
@@ -214,9 +216,59 @@ static int want_c10, want_c14, want_c15;
 
 static int is_raw_frame(const unsigned char *d, int len) { return len >= 4 && d[0] == 0x10 && d[1] == 0xd1 && d[2] == 0x9e; }
 
+/* ---- C16 (E-A part): at every query the server receives from the real client, re-deliver one of the last eight
+ * queries it has received - unchanged, with a fresh DNS id, upper-cased, or with a fresh id from a second relay port.
+ * One re-delivery per execution (deviation bound 1). */
+static int want_c16;
+typedef struct c16pos { int in_seq, in_frag, in_len, in_off, out_seq, out_frag, out_off, out_sent, out_len, q_next, q_filled; uint64_t inh[2]; } c16pos;
+static struct { int len; unsigned char d[700]; } C16RING[8]; static int c16_nring;
+static int64_t c16_inject_at;
+static int c16_inject_seq = -1, c16_await_after; static c16pos c16_before; static char c16_desc[120];
+static void c16_getpos(c16pos *p)
+{
+	struct tun_user *u = &s_w_users()[0];
+	memset(p, 0, sizeof *p);
+	p->in_seq = u->inpacket.seqno; p->in_frag = u->inpacket.fragment; p->in_len = u->inpacket.len; p->in_off = u->inpacket.offset;
+	p->out_seq = u->outpacket.seqno; p->out_frag = u->outpacket.fragment; p->out_off = u->outpacket.offset; p->out_sent = u->outpacket.sentlen; p->out_len = u->outpacket.len;
+	p->q_next = u->outpacketq_nexttouse; p->q_filled = u->outpacketq_filled;
+	h128 h; h128_init(&h); int n = u->inpacket.offset; if (n < 0) n = 0; if (n > (int)sizeof u->inpacket.data) n = sizeof u->inpacket.data;
+	h128_update(&h, u->inpacket.data, n); h128_final(&h, p->inh);
+}
+
+static void c16_on_srv_recv(int di)
+{
+	vw_dgram *g = &W.dg[di];
+	if (g->seq == c16_inject_seq) { c16_getpos(&c16_before); c16_await_after = 1; return; }
+	if (g->len < 17 || g->len > 700 || is_raw_frame(g->data, g->len) || (g->data[2] & 0x80)) return;
+	int c = tolower(g->data[13]);
+	if (!(c == 'p' || isxdigit(c))) return;                 /* pings and data queries only */
+	memmove(&C16RING[1], &C16RING[0], sizeof C16RING[0] * 7);
+	C16RING[0].len = g->len; memcpy(C16RING[0].d, g->data, g->len);
+	if (c16_nring < 8) c16_nring++;
+	if (!ns_choices_on) return;
+	static const char *VN[4] = { "unchanged", "with a fresh DNS id", "upper-cased", "with a fresh DNS id from a second relay port" };
+	int costs[33]; costs[0] = 0; for (int i = 1; i <= c16_nring * 4; i++) costs[i] = 1;
+	int alt = xp_choose(1 + c16_nring * 4, costs);
+	if (!alt) return;
+	int k = (alt - 1) / 4, v = (alt - 1) % 4;
+	unsigned char pkt[700]; int len = C16RING[k].len;
+	memcpy(pkt, C16RING[k].d, len);
+	struct sockaddr_storage src = g->src;
+	if (v == 1 || v == 3) { int id = (((pkt[0] << 8) | pkt[1]) ^ 0x3c3c) ? (((pkt[0] << 8) | pkt[1]) ^ 0x3c3c) : 0x1234; pkt[0] = id >> 8; pkt[1] = id; }
+	if (v == 2) for (int i = 1; i <= pkt[12] && 12 + i < len; i++) pkt[12 + i] = toupper(pkt[12 + i]);
+	if (v == 3) ((struct sockaddr_in *)&src)->sin_port = htons(47777);
+	int cdg = vw_dgram_new(&src, g->srclen, &g->dst, g->dstlen, pkt, len, -1);
+	c16_inject_seq = W.dg[cdg].seq; c16_inject_at = W.now;
+	snprintf(c16_desc, sizeof c16_desc, "re-delivery of the query received %d before the current one, %s", k, VN[v]);
+	vw_deliver_at(cdg, ns_srv_sock, W.now + 1);
+	xp_count(K_REDELIV, 1);
+	if (ns_trace) printf("    C16: %s\n", c16_desc);
+}
+
 static void mon_srv_recv(int proc, int di)
 {
 	if (proc != 0) return;
+	if (want_c16) c16_on_srv_recv(di);
 	vw_dgram *g = &W.dg[di];
 	if (is_raw_frame(g->data, g->len)) return;
 	static rd_msg m; char err[128];
@@ -278,6 +330,16 @@ static void mon_send(int d, int from, int to_server)
 /* C14 lazy bound: at every select() of the server */
 static void after_run(int proc)
 {
+	if (proc == 0 && want_c16 && c16_await_after && W.proc[0].state == VW_P_SELECT) {
+		c16pos a; c16_getpos(&a);
+		c16_await_after = 0;
+		xp_count(K_CACHEHITS, 1);
+		if (memcmp(&a, &c16_before, sizeof a))
+			viol("redelivery-moved-the-stream", "%s: upstream position (seq %d frag %d len %d off %d) -> (%d %d %d %d), downstream (seq %d frag %d off %d sent %d len %d, queue %d+%d) -> (%d %d %d %d %d, %d+%d)%s", c16_desc,
+			     c16_before.in_seq, c16_before.in_frag, c16_before.in_len, c16_before.in_off, a.in_seq, a.in_frag, a.in_len, a.in_off,
+			     c16_before.out_seq, c16_before.out_frag, c16_before.out_off, c16_before.out_sent, c16_before.out_len, c16_before.q_next, c16_before.q_filled,
+			     a.out_seq, a.out_frag, a.out_off, a.out_sent, a.out_len, a.q_next, a.q_filled, memcmp(a.inh, c16_before.inh, 16) ? ", reassembled bytes changed" : "");
+	}
 	if (proc != 0 || !want_c14) return;
 	if (W.proc[0].state != VW_P_SELECT) return;
 	for (int sess = 1; sess <= 2; sess++) {
@@ -502,6 +564,7 @@ static void run_cell(int job)
 	cell_to_cfg(c, &cfg);
 	cell_desc(c, desc, sizeof desc);
 	memset(PEND, 0, sizeof PEND); memset(FST, 0, sizeof FST);
+	c16_nring = 0; c16_inject_seq = -1; c16_await_after = 0;
 	ns_viol = core_viol;
 	ns_mon_send = mon_send;
 	ns_install_hooks = install_hooks;
@@ -551,6 +614,7 @@ static void run_cell(int job)
 	offer_workload(c->wl, t0);
 	XC.budget = BUDGET;
 	ns_choices_on = BUDGET > 0;
+	if (want_c16) ns_fate_mask = 0;          /* the only deviation is the re-delivery */
 	XC.ncp = 0;
 	run_to_horizon(t0 + (int64_t)HORIZON_S * 1000000, 60000);
 	/* end of execution */
@@ -561,6 +625,23 @@ static void run_cell(int job)
 	}
 	xp_count(K_DELIV_UP, up); xp_count(K_DELIV_DOWN, down); xp_count(K_REPEATS, rep);
 	if ((!strcmp(PROP, "C02") || !strcmp(PROP, "C11")) && XC.npath == 0) end_of_run_c02_clean(c, desc);
+	if (want_c16) {
+		/* end-to-end part: a re-delivered query may cost or repeat the packet in flight (a relay drops the second answer
+		 * to a query it has already answered; C01 allows loss and repeats), but the streams must not be left displaced:
+		 * every packet accepted later than one second after the re-delivery still arrives, in order */
+		if (XC.npath == 0) end_of_run_c02_clean(c, desc);
+		else for (int dst = 0; dst <= 1; dst++) {
+			int lastpos = -1;
+			for (int i = 0; i < ns_nrd; i++) {
+				if (!ns_rd[i].accepted || !ns_rd[i].must || ns_rd[i].dstproc != dst || ns_rd[i].proc == dst || ns_rd[i].at < c16_inject_at + 1000000) continue;
+				int pos = -1;
+				for (int k = 0; k < ns_nwr; k++) if (ns_wr[k].proc == dst && ns_wr[k].matched == i) { pos = k; break; }
+				if (pos < 0) viol("stream-displaced-after-redelivery", "%s + %s at t=%.3f: packet tag %d accepted at t=%.3f for proc %d never arrived", desc, c16_desc, c16_inject_at / 1e6, ns_rd[i].tag, ns_rd[i].at / 1e6, dst);
+				else if (pos < lastpos) viol("stream-displaced-after-redelivery", "%s + %s: packets accepted after the re-delivery arrive out of order", desc, c16_desc);
+				else lastpos = pos;
+			}
+		}
+	}
 	if (!strcmp(PROP, "C11")) {
 		/* which settings were negotiated: outcome classes */
 		struct tun_user *u0 = s_w_users();
@@ -576,7 +657,7 @@ static void run_cell(int job)
 	}
 	if (XC.npath == 0 && job < 6) xp_sample("%s: clean path delivered %d up / %d down of %d offered; upstream %s %d B/query, downstream fragsize %d, %ld+%ld datagrams", desc, up, down, WLS[c->wl].n,
 				       ca_w_dataenc_name(), up_chunk_cap, down_frag_cap, ns_ndgram_up, ns_ndgram_down);
-	else if (XC.npath == 1 && (XS->execs % 997) == 0) xp_sample("%s + deviation at choice point %d: %s -> %d up / %d down delivered, %d repeated", desc, XC.path[0].cp, NS_FATE[XC.path[0].alt], up, down, rep);
+	else if (XC.npath == 1 && (XS->execs % 997) == 0) xp_sample("%s + deviation at choice point %d: %s -> %d up / %d down delivered, %d repeated", desc, XC.path[0].cp, want_c16 ? c16_desc : XC.path[0].alt < F_NFATES ? NS_FATE[XC.path[0].alt] : "?", up, down, rep);
 	xp_leaf();
 }
 
@@ -589,14 +670,20 @@ int main(int argc, char **argv)
 		if (!strcmp(a.extra[i], "--prop") && i + 1 < a.nextra) PROP = a.extra[++i];
 		else if (!strcmp(a.extra[i], "--maxcells") && i + 1 < a.nextra) maxcells = atoi(a.extra[++i]);
 	}
-	want_c10 = !strcmp(PROP, "C10"); want_c14 = !strcmp(PROP, "C14"); want_c15 = !strcmp(PROP, "C15");
+	want_c10 = !strcmp(PROP, "C10"); want_c14 = !strcmp(PROP, "C14"); want_c15 = !strcmp(PROP, "C15"); want_c16 = !strcmp(PROP, "C16");
 	xp_describe_job = describe_job;
-	exclude_oversized_fragsize = !strcmp(PROP, "C02") || !strcmp(PROP, "C15");
+	exclude_oversized_fragsize = !strcmp(PROP, "C02") || !strcmp(PROP, "C15") || !strcmp(PROP, "C16");
 	/* phases: each phase = (cell set, deviation bound); jobs are run phase by phase */
 	struct { int first, count, budget; } PH[8]; int nph = 0;
 	#define PHASE(b) do { PH[nph].count = ncells - PH[nph].first; PH[nph].budget = (b); nph++; PH[nph].first = ncells; } while (0)
 	PH[0].first = 0;
-	if (!strcmp(PROP, "C11")) {
+	if (!strcmp(PROP, "C16")) {
+		exclude_oversized_fragsize = 1;
+		HORIZON_S = 8;
+		cells_pairwise(6, 0);
+		if (!thorough) ncells = ncells > 14 ? 14 : ncells;
+		PHASE(1);
+	} else if (!strcmp(PROP, "C11")) {
 		cells_c11(thorough);
 		HORIZON_S = 40;
 		PHASE(0);
